@@ -206,7 +206,32 @@ Proof.
   destruct (negb _); [exact I|]. destruct (existsb _ ids); [exact I|]. destruct (existsb _ names); [exact I|]. apply IH.
 Qed.
 Lemma check_scope_graceful rf s : vgraceful (check_scope rf s).
-Proof. unfold check_scope. apply rall_graceful. intros o _. destruct (valid_ty rf (o_type o)); exact I. Qed.
+Proof.
+  unfold check_scope. apply rand_graceful.
+  - destruct (first_dup_var [] (p_vars (sc_prefix s))); exact I.
+  - intros _. apply rall_graceful. intros o _. destruct (valid_ty rf (o_type o)); exact I.
+Qed.
+
+(** a scope that passes names each prefix variable once *)
+Lemma first_dup_var_none vars : forall seen,
+  first_dup_var seen vars = None -> NoDup vars /\ forall v, In v vars -> ~ In v seen.
+Proof.
+  induction vars as [|v t IH]; intros seen H; cbn [first_dup_var] in H.
+  - split; [constructor|intros v []].
+  - destruct (existsb (beqb v) seen) eqn:E; [discriminate|].
+    destruct (IH (v :: seen) H) as [ND Hnot]. split.
+    + constructor; [|exact ND]. intros Hin. apply (Hnot v Hin). left. reflexivity.
+    + intros x [<-|Hin].
+      * intros Hs. assert (existsb (beqb v) seen = true) as X; [|congruence].
+        apply existsb_exists. exists v. split; [exact Hs|]. apply beqb_refl.
+      * intros Hs. apply (Hnot x Hin). right. exact Hs.
+Qed.
+Lemma check_scope_prefix_vars_distinct rf s : check_scope rf s = ROk -> NoDup (p_vars (sc_prefix s)).
+Proof.
+  unfold check_scope. intros H. apply rand_ok in H as [H _].
+  destruct (first_dup_var [] (p_vars (sc_prefix s))) eqn:E; [discriminate|].
+  apply (first_dup_var_none _ [] E).
+Qed.
 
 (** * Services *)
 Lemma find_service_In l n s : find_service l n = Some s -> In s l.
@@ -471,6 +496,7 @@ Record validated_facts (fuel : nat) (f : frugal) (incs : list (bytes * ftree)) :
   vf_typedef_targets : forall td, In td (fr_typedefs f) -> valid_ty (reduce f incs) (td_type td) = true;
   vf_uses : forall t, In t (file_uses f) -> valid_ty (reduce f incs) t = true;
   vf_ops : forall s o, In s (fr_scopes f) -> In o (sc_ops s) -> valid_ty (reduce f incs) (o_type o) = true;
+  vf_prefix_vars : forall s, In s (fr_scopes f) -> NoDup (p_vars (sc_prefix s));
   vf_extends : forall s, In s (fr_services f) -> extends_ok f incs s;
   vf_throws : forall s m a, In s (fr_services f) -> In m (sv_methods s) -> In a (m_throws m) ->
                             is_exception fuel f incs (reduce f incs) (f_type a) = Some true;
@@ -522,9 +548,10 @@ Proof.
     + destruct (m_return m) as [rt|]; [|destruct Hin]. destruct Hin as [<-|[]]. apply R1. reflexivity.
     + apply in_app_or in Hin as [Hin|Hin]; apply in_map_iff in Hin as (a & <- & Ha); [apply R2; exact Ha|apply R3; exact Ha].
   - intros s o Hs' Ho.
-    pose proof (rall_ok _ _ Hsc s Hs') as Hcs. unfold check_scope in Hcs.
+    pose proof (rall_ok _ _ Hsc s Hs') as Hcs. unfold check_scope in Hcs. apply rand_ok in Hcs as [_ Hcs].
     pose proof (rall_ok _ _ Hcs o Ho) as Hv. cbn beta in Hv.
     destruct (valid_ty (reduce f incs) (o_type o)); [reflexivity|discriminate].
+  - intros s Hs'. exact (check_scope_prefix_vars_distinct _ s (rall_ok _ _ Hsc s Hs')).
   - intros s Hin. pose proof (rall_ok _ _ Hsv s Hin) as Hcs. unfold check_service in Hcs.
     apply rand_ok in Hcs as [_ Hcs]. apply rand_ok in Hcs as [Hw _]. eapply extends_walk_sound; exact Hw.
   - intros s m a Hs' Hm Ha. pose proof (rall_ok _ _ Hsv s Hs') as Hcs. unfold check_service in Hcs.
@@ -909,6 +936,11 @@ Lemma validated_throws fuel f incs :
   forall s m a, In s (fr_services f) -> In m (sv_methods s) -> In a (m_throws m) ->
   is_exception fuel f incs (reduce f incs) (f_type a) = Some true.
 Proof. intros Hf H. exact (vf_throws _ _ _ (cvalidate_facts fuel f incs Hf H)). Qed.
+
+Lemma validated_prefix_vars fuel f incs :
+  (S (length (fr_typedefs f)) <= fuel)%nat -> cvalidate fuel f incs = ROk ->
+  forall s, In s (fr_scopes f) -> NoDup (p_vars (sc_prefix s)).
+Proof. intros Hf H. exact (vf_prefix_vars _ _ _ (cvalidate_facts fuel f incs Hf H)). Qed.
 
 Lemma validated_members fuel f incs :
   (S (length (fr_typedefs f)) <= fuel)%nat -> cvalidate fuel f incs = ROk ->
